@@ -9,8 +9,9 @@ using namespace QtLogger;
 
 namespace {
 
-QString TEXTS[7];
-const char *TNAME[7] = { "(null)", "\"\"", "a", "A", "a_", "e-acute-NFC", "e-acute-NFD" };
+const int NTEXT = 9;
+QString TEXTS[NTEXT];
+const char *TNAME[NTEXT] = { "(null)", "\"\"", "a", "A", "a_", "e-acute-NFC", "e-acute-NFD", "Aa", "BB" };   // "Aa" / "BB": equal length, equal 31-polynomial hash (Qt's qHash with seed 0, Java's hashCode)
 const QtMsgType TYPES[5] = { QtDebugMsg, QtInfoMsg, QtWarningMsg, QtCriticalMsg, QtFatalMsg };
 const char *TYN[5] = { "debug", "info", "warning", "critical", "fatal" };
 int prio(int ti) { return ti; } // index in TYPES is the documented severity order
@@ -49,7 +50,7 @@ struct World {
     std::string canon() const
     {
         std::string s = "drop:";
-        for (int t = 0; t < 7; t++) { DuplicateFilter c(*dup); auto m = mk(t, 0); s += c.filter(m) ? '.' : 'X'; }
+        for (int t = 0; t < NTEXT; t++) { DuplicateFilter c(*dup); auto m = mk(t, 0); s += c.filter(m) ? '.' : 'X'; }
         SeqNumberAttr c(*seq); auto m = mk(2, 0);
         s += " next=" + std::to_string(c.attributes(m).value(QStringLiteral("seq_number")).toInt());
         return s;
@@ -104,8 +105,8 @@ void regexDump(const char *path, int maxTok, int maxLen, vx::Summary &sum)
 {
     FILE *f = fopen(path, "w");
     if (!f) { fprintf(stderr, "cannot write %s\n", path); exit(3); }
-    const char *TOK[] = { "a", "b", ".", "*", "|", "(", ")", "^", "$", "[ab]", "?", "+" };
-    const int NT = 12;
+    const char *TOK[] = { "a", "b", ".", "*", "|", "(", ")", "^", "$", "[ab]", "?", "+", "(a)", "(b*)", "\\1" };   // groups and a back-reference as single tokens
+    const int NT = 15;
     std::vector<QString> strs { QString() };
     { std::vector<QString> cur { QStringLiteral("") }; const char *SY[] = { "a", "b", "\n" };
       strs = cur;
@@ -151,10 +152,11 @@ int main(int argc, char **argv)
 {
     TEXTS[0] = QString(); TEXTS[1] = QStringLiteral(""); TEXTS[2] = QStringLiteral("a"); TEXTS[3] = QStringLiteral("A");
     TEXTS[4] = QStringLiteral("a "); TEXTS[5] = QString(QChar(0xe9)); TEXTS[6] = QString(QChar('e')) + QChar(0x301);
+    TEXTS[7] = QStringLiteral("Aa"); TEXTS[8] = QStringLiteral("BB");
     int depth = vx::argInt(argc, argv, "--depth", 4);
     const char *rx = vx::argStr(argc, argv, "--regex-out", nullptr);
     vx::Summary sum;
-    sum.bound = "message sequences <= " + std::to_string(depth) + " over 7 texts x 5 types x 2 pipelines (70 messages)";
+    sum.bound = "message sequences <= " + std::to_string(depth) + " over 9 texts x 5 types x 2 pipelines (90 messages)";
     if (rx) regexDump(rx, vx::argInt(argc, argv, "--regex-tokens", 3), vx::argInt(argc, argv, "--regex-len", 3), sum);
 
     std::set<std::string> seen;
@@ -164,7 +166,7 @@ int main(int argc, char **argv)
     for (int d = 1; d <= depth; d++) {
         std::vector<std::vector<Msg>> next;
         for (auto &h : frontier)
-            for (int t = 0; t < 7; t++) for (int ty = 0; ty < 5; ty++) for (int p = 0; p < 2; p++) {
+            for (int t = 0; t < NTEXT; t++) for (int ty = 0; ty < 5; ty++) for (int p = 0; p < 2; p++) {
                 auto h2 = h; h2.push_back({ t, ty, p });
                 bool bad = false;
                 std::string c = runHistory(h2, &sum, &bad);
@@ -189,7 +191,7 @@ int main(int argc, char **argv)
         std::function<void(int)> rec = [&](int left) {
             if (!h.empty()) { bool bad; runHistory(h, &sum, &bad); sum.cases++; sum.counters["nodedup_sequences"]++; }
             if (!left) return;
-            for (int t = 0; t < 7; t++) for (int ty = 0; ty < 5; ty++) for (int p = 0; p < 2; p++) {
+            for (int t = 0; t < NTEXT; t++) for (int ty = 0; ty < 5; ty++) for (int p = 0; p < 2; p++) {
                 if (h.empty() && (idx++ % nshards) != shard) continue;
                 h.push_back({ t, ty, p }); rec(left - 1); h.pop_back();
             }
